@@ -15,11 +15,22 @@ PROOF_FIELDS = [
 IPP_FIELDS = [("L_vec", "std::vec::Vec<G>"), ("R_vec", "std::vec::Vec<G>"), ("a", "<G as ark_ec::AffineRepr>::ScalarField"), ("b", "<G as ark_ec::AffineRepr>::ScalarField")]
 
 
+def norm_ty(t):
+    """type strings with bare type-parameter names replaced by $T (renaming a parameter is not a layout change)"""
+    import re
+
+    return re.sub(r"(?<![\w:])([A-Z]\w*)(?![\w:])", "$T", t)
+
+
+PROOF_FIELDS = [(n, norm_ty(t)) for n, t in PROOF_FIELDS]
+IPP_FIELDS = [(n, norm_ty(t)) for n, t in IPP_FIELDS]
+
+
 def struct_fields(F, path):
     a = F.adts.get(path)
     if a is None:
         raise FX.AnchorMissing(path)
-    return [(f["name"], f["ty"], f["vis"]) for f in a["variants"][0]["fields"]]
+    return [(f["name"], norm_ty(f["ty"]), f["vis"]) for f in a["variants"][0]["fields"]]
 
 
 def impls_of(F, self_prefix):
